@@ -1240,7 +1240,14 @@ sexp sexp_apply (sexp ctx, sexp proc, sexp args) {
 #endif
     }
     fuel = sexp_context_refuel(ctx);
-    if (fuel <= 0) goto end_loop;
+    if (fuel <= 0) {
+      /* a child thread which already ended or was terminated by another */
+      /* thread has its result set - don't replace it with whatever is on */
+      /* its stack, just rerun the scheduler to wake the threads joining it */
+      if (ctx != root_thread && sexp_context_refuel(root_thread) > 0)
+        goto loop;
+      goto end_loop;
+    }
     if (sexp_context_waitp(ctx)) {
       fuel = 1;
       goto loop;  /* we were still waiting, try again */
